@@ -77,6 +77,11 @@ struct ChunkerWExec {
     block: usize,
     base_ordinal: u64,
     serial: u64,
+    // content oracle: what the reader delivered / what the chunks carried so far (until the first I/O error,
+    // after which the carry-over byte of the failed refill is legitimately gone)
+    delivered: Vec<u8>,
+    emitted: Vec<u8>,
+    content_on: bool,
 }
 
 impl ChunkerWExec {
@@ -90,6 +95,26 @@ impl ChunkerWExec {
             block: 0,
             base_ordinal: next,
             serial: 0,
+            delivered: vec![],
+            emitted: vec![],
+            content_on: true,
+        }
+    }
+
+    /// The chunks carry exactly the bytes the reader delivered, in order: a chunk whose bytes were read back
+    /// through memory that had been released (poisoned with 0xFC in this profile) breaks this.
+    fn check_content(&mut self, new: &[u8], so: &mut StepOut) {
+        if !self.content_on {
+            return;
+        }
+        self.emitted.extend_from_slice(new);
+        if self.emitted.len() > self.delivered.len() || self.emitted[..] != self.delivered[..self.emitted.len()] {
+            so.violations.push(format!(
+                "C05 the chunks handed out so far ({} bytes, last {}) are not the bytes the reader delivered: a chunk was filled through memory that is no longer alive",
+                self.emitted.len(),
+                to_hex(new)
+            ));
+            self.content_on = false;
         }
     }
 
@@ -118,9 +143,17 @@ impl ChunkerWExec {
     fn pump_once(&mut self, so: &mut StepOut) -> bool {
         self.reader.calls.clear();
         let res = self.chunker.pump(&mut self.arena, &mut self.reader, self.block);
+        for c in &self.reader.calls {
+            if let crate::fam_readn::Call::Delivered(_, b) = c {
+                self.delivered.extend_from_slice(b);
+            }
+        }
         let mut is_eof = false;
         let head = match res {
-            Ok(Chunk::Sentinel(off)) => format!("sentinel {}{}", off, reader_tail(&self.reader, true)),
+            Ok(Chunk::Sentinel(off)) => {
+                self.check_content(&[0xFE, 0xFD], so);
+                format!("sentinel {}{}", off, reader_tail(&self.reader, true))
+            }
             Ok(Chunk::Eof) => {
                 is_eof = true;
                 format!("eof{}", reader_tail(&self.reader, true))
@@ -138,13 +171,17 @@ impl ChunkerWExec {
                     }
                 };
                 let b = s.to_vec();
+                self.check_content(&b, so);
                 so.tags.push("w_chunk_data".into());
                 let line = format!("data {} {}{} at={}", off, to_hex(&b), reader_tail(&self.reader, true), at);
                 self.held.push_back((slice, b, self.serial));
                 self.serial += 1;
                 line
             }
-            Err(e) => format!("ioerr {}{}", kind_index(e.kind()), reader_tail(&self.reader, true)),
+            Err(e) => {
+                self.content_on = false;
+                format!("ioerr {}{}", kind_index(e.kind()), reader_tail(&self.reader, true))
+            }
         };
         so.obs.push(head);
         self.check_held(so);
